@@ -353,7 +353,9 @@ type StreamSet interface {
 	StreamAt(k string) Stream // nil if none
 }
 
-type GSS struct{ S *fpgo.StreamSetDef[string, int] }
+type GSS struct {
+	S *fpgo.StreamSetDef[string, int]
+}
 
 func NewGSS(m map[string][]int) StreamSet {
 	mm := map[string]*fpgo.StreamDef[int]{}
@@ -414,7 +416,9 @@ func (s GSS) StreamAt(k string) Stream {
 	return GStream{v}
 }
 
-type ISS struct{ S *fpgo.StreamSetForInterfaceDef }
+type ISS struct {
+	S *fpgo.StreamSetForInterfaceDef
+}
 
 func NewISS(m map[string][]int) StreamSet {
 	mm := map[interface{}]*fpgo.StreamForInterfaceDef{}
